@@ -757,6 +757,113 @@ def step (w : World) : Op → World × Outcome
   | .sortOk orders => (sortApply w orders, .ok)
   | .sortCycle => (w, .raised "ValueError")
 
+/-! ## Composite editing calls  (`_convenience/__init__.py:281-548`) -/
+
+/-- sequencing with early exit: the state reached when a later call raises is kept (as in Python) -/
+def andThen (r : World × Outcome) (f : World → World × Outcome) : World × Outcome :=
+  match r.2 with
+  | .ok => f r.1
+  | .raised _ => r
+
+/-- `convenience.replace_all_uses_with(values, replacements, …)`: one
+`Value.replace_all_uses_with` per pair (`_convenience/__init__.py:354-361`); pairs before a rejected
+one stay applied -/
+def rauwSeq (w : World) (rgo : Bool) : List (Nat × Nat) → World × Outcome
+  | [] => (w, .ok)
+  | (v, r) :: rest => andThen (rauw w v r rgo) (fun w1 => rauwSeq w1 rgo rest)
+
+def rauwMany (w : World) (vs rs : List Nat) (rgo : Bool) : World × Outcome :=
+  if vs.length ≠ rs.length then (w, .raised "ValueError") else rauwSeq w rgo (vs.zip rs)
+
+/-- first target per value; `none` when one value is given two different targets
+(`_convenience/__init__.py:391-406`) -/
+def dedupPairs : List (Nat × String) → List (Nat × String) → Option (List (Nat × String))
+  | acc, [] => some acc
+  | acc, (v, n) :: rest =>
+    match acc.find? (fun p => p.1 = v) with
+    | some p => if p.2 = n then dedupPairs acc rest else none
+    | none => dedupPairs (acc ++ [(v, n)]) rest
+
+/-- the initializer part of the validation of `rename_values` (`_convenience/__init__.py:408-441`):
+empty target, two initializers of one graph with the same target, or a target that is the key of an
+initializer outside the renamed set -/
+def renameBad (w : World) (ips : List (Nat × String)) : Bool :=
+  ips.any (fun p =>
+    let g := (w.val p.1).graph
+    p.2 = "" ||
+    ips.any (fun q => q.1 ≠ p.1 && q.2 = p.2 && (w.val q.1).graph = g) ||
+    (match g with
+      | some gi =>
+        match lookupInit (w.gr gi).inits p.2 with
+        | some e => e ≠ p.1 && !(ips.any (fun q => q.1 = e && (w.val q.1).graph = g))
+        | none => false
+      | none => true))
+
+def setNameIfPlain (w : World) (v : Nat) (s : Option String) : World :=
+  if (w.val v).isInit || (w.val v).name = s then w else setNamePlain w v s
+
+/-- `convenience.rename_values(values, names)`: validate the whole assignment, take the renamed
+initializers out of their mappings, rename, put them back (`_convenience/__init__.py:364-453`) -/
+def renameValues (w : World) (vs : List Nat) (names : List String) : World × Outcome :=
+  if vs.length ≠ names.length then (w, .raised "ValueError") else
+  match dedupPairs [] (vs.zip names) with
+  | none => (w, .raised "ValueError")
+  | some pairs =>
+    let ips := pairs.filter (fun p => (w.val p.1).isInit)
+    guardOp (renameBad w ips) "ValueError" w <|
+      let w1 := ips.foldl (fun w p => match (w.val p.1).graph, (w.val p.1).name with
+        | some g, some old => initDel w g old
+        | _, _ => w) w
+      let w2 := pairs.foldl (fun w p => setNameIfPlain w p.1 (some p.2)) w1
+      ips.foldl (fun w' p => match (w.val p.1).graph with
+        | some g => initPut w' g p.2 p.1
+        | none => w') w2
+
+/-- `convenience.replace_nodes_and_values` (`_convenience/__init__.py:512-548`): copy const tensor and
+name onto the new values, reconnect users (graph outputs included), insert the new nodes, remove the
+old ones safely — a plain sequence of public calls, not atomic -/
+def copyInfo (w : World) : List (Nat × Nat) → World × Outcome
+  | [] => (w, .ok)
+  | (o, n) :: rest =>
+    let w1 := match (w.val o).const with
+      | some t => w.setVal n { w.val n with const := some t }
+      | none => w
+    let r := match (w1.val o).name with
+      | some s => setName w1 n (some s)
+      | none => (w1, .ok)
+    andThen r (fun w2 => copyInfo w2 rest)
+
+def replaceNodesAndValues (w : World) (g ip : Nat) (oldNodes newNodes oldVals newVals : List Nat) :
+    World × Outcome :=
+  andThen (copyInfo w (oldVals.zip newVals)) fun w1 =>
+  andThen (rauwMany w1 oldVals newVals true) fun w2 =>
+  andThen (graphInsertAfter w2 g ip newNodes) fun w3 =>
+  graphRemove w3 g oldNodes true
+
+inductive ConvOp where
+  | rauwMany (vs rs : List Nat) (rgo : Bool)
+  | renameValues (vs : List Nat) (names : List String)
+  | replaceNodesAndValues (g ip : Nat) (oldNodes newNodes oldVals newVals : List Nat)
+  deriving Repr
+
+def stepConv (w : World) : ConvOp → World × Outcome
+  | .rauwMany vs rs rgo => rauwMany w vs rs rgo
+  | .renameValues vs names => renameValues w vs names
+  | .replaceNodesAndValues g ip oldNodes newNodes oldVals newVals =>
+    replaceNodesAndValues w g ip oldNodes newNodes oldVals newVals
+
+/-- the whole alphabet: single calls and composite calls -/
+inductive AnyOp where
+  | one (op : Op)
+  | conv (op : ConvOp)
+  deriving Repr
+
+def stepAny (w : World) : AnyOp → World × Outcome
+  | .one op => step w op
+  | .conv op => stepConv w op
+
+def runAny (ops : List AnyOp) : World := ops.foldl (fun w o => (stepAny w o).1) World.empty
+
 def run (ops : List Op) : World := ops.foldl (fun w o => (step w o).1) World.empty
 
 end IrVerif.Kernel
